@@ -1,7 +1,7 @@
 (** Well-formed type descriptions, typing of values, and how the
     structure decoder finds its fields among the children of a written
     container. *)
-From Coq Require Import NArith ZArith List Bool Lia ZifyN ZifyBool.
+From Coq Require Import NArith ZArith List Bool Lia ZifyN ZifyBool Sorted.
 From RsM Require Import Model.Tlv Model.TlvDerive Proofs.TlvFacts Proofs.TlvTotal Proofs.TlvWriter
   Proofs.TlvRoundtrip Proofs.TlvDeriveInt.
 Import ListNotations.
@@ -68,7 +68,8 @@ Fixpoint wf_dty (d : dty) : Prop :=
   | DNullable d' => is_nullable d' = false /\ wf_dty d'
   | DVec _ d' | DFixed _ d' => wf_dty d'
   | DStruct k ordered fs =>
-      NoDup (map fst fs) /\ ordered = false /\
+      NoDup (map fst fs) /\
+      (ordered = true -> StronglySorted N.lt (map fst fs)) /\   (* assume_ordered: declaration order = tag order *)
       (fix all (l : list (N * dty)) : Prop :=
          match l with
          | [] => True
@@ -89,16 +90,28 @@ Fixpoint wf_dty (d : dty) : Prop :=
 Definition wf_field (d : dty) : Prop :=
   match d with DOption d' => wf_dty d' | _ => wf_dty d end.
 
+Lemma wf_fields_all fs :
+  (fix all (l : list (N * dty)) : Prop :=
+     match l with
+     | [] => True
+     | (ft, fd) :: r =>
+         ft < 256 /\ (match fd with DOption d' => wf_dty d' | _ => wf_dty fd end) /\ all r
+     end) fs <-> Forall (fun f => fst f < 256 /\ wf_field (snd f)) fs.
+Proof.
+  induction fs as [|[ft fd] r IH]; split; intros H.
+  - constructor.
+  - exact I.
+  - destruct H as (H1 & H2 & H3). constructor; [split; assumption|apply IH, H3].
+  - inversion H as [|? ? [H1 H2] H3]; subst. cbn [fst snd] in *.
+    split; [exact H1|]. split; [exact H2|apply IH, H3].
+Qed.
+
 Lemma wf_struct k o fs :
   wf_dty (DStruct k o fs) <->
-  NoDup (map fst fs) /\ o = false /\ Forall (fun f => fst f < 256 /\ wf_field (snd f)) fs.
+  NoDup (map fst fs) /\ (o = true -> StronglySorted N.lt (map fst fs)) /\
+  Forall (fun f => fst f < 256 /\ wf_field (snd f)) fs.
 Proof.
-  cbn [wf_dty]. split; intros (Hn & Ho & H); repeat split; auto.
-  - induction fs as [|[ft fd] r IH]; constructor.
-    + cbn [fst snd]. unfold wf_field. tauto.
-    + apply IH; [inversion Hn; assumption|tauto].
-  - clear Hn. induction H as [|[ft fd] r [H1 H2] Hr IH]; [exact I|].
-    cbn [fst snd] in *. unfold wf_field in H2. tauto.
+  cbn [wf_dty]. rewrite wf_fields_all. reflexivity.
 Qed.
 
 Lemma wf_enum nk vs :
